@@ -10,12 +10,14 @@ Open Scope Z_scope.
 Inductive Closed : list event -> list (nat * list Z) -> Prop :=
 | Closed_nil : Closed [] []
 | Closed_epoch e l bs : Closed l bs -> Closed (SetEpoch e :: l) bs
+| Closed_iter e l bs : Closed l bs -> Closed (IterStart e :: l) bs
 | Closed_main b l bs : b <> [] -> Closed l bs -> Closed (emit Main b ++ l) ((0%nat, b) :: bs)
 | Closed_side ci b l bs : b <> [] -> Closed l bs -> Closed (emit (Side ci) b ++ l) ((S ci, b) :: bs).
 
 Lemma Closed_app l1 bs1 : Closed l1 bs1 -> forall l2 bs2, Closed l2 bs2 -> Closed (l1 ++ l2) (bs1 ++ bs2).
 Proof.
   induction 1; intros l2 bs2 H2; cbn [app]; auto.
+  - constructor; auto.
   - constructor; auto.
   - rewrite <- app_assoc. constructor; auto.
   - rewrite <- app_assoc. constructor; auto.
@@ -41,6 +43,7 @@ Lemma batches_closed l bs : Closed l bs -> batches (render l) = (map snd bs, tru
 Proof.
   unfold batches. induction 1.
   - reflexivity.
+  - cbn [render map batches_aux]. exact IHClosed.
   - cbn [render map batches_aux]. exact IHClosed.
   - unfold render. rewrite map_app. fold (render (emit Main b)). fold (render l).
     rewrite (batches_emit Main) by auto. rewrite IHClosed. reflexivity.
@@ -128,7 +131,7 @@ Section B.
     unfold epoch_events.
     destruct (updates_closed e pn (fst (take_until (hit c) (epoch_updates c mi e pn)))) as [bs H];
       [apply take_until_incl|].
-    exists bs. constructor. exact H.
+    exists bs. constructor. constructor. exact H.
   Qed.
 
   Lemma spec_run_closed : forall n e pn tr, spec_run c mi e pn n = Some tr -> exists bs, Closed tr bs.
@@ -156,7 +159,7 @@ End B.
    closed stream is one of the stream's own batches, i.e. comes from a single
    emit of one dataset. *)
 Definition batch_indices_of (ev : event) : option (nat * Z) :=
-  match ev with SetEpoch _ => None | Main _ i => Some (0%nat, i) | Side ci _ i => Some (S ci, i) end.
+  match ev with SetEpoch _ => None | IterStart _ => None | Main _ i => Some (0%nat, i) | Side ci _ i => Some (S ci, i) end.
 
 Fixpoint stream_tags (l : list event) : list (nat * Z) :=
   match l with
